@@ -4,8 +4,9 @@ Functions under test (TidalPy.tides.potential) and what they return (read from t
 callers `tides/modes/multilayer_modes.py`, `Tests/Test_Old/Test_SetX_Potential`):
     every implementation returns (frequencies_by_name, modes_by_name, potential_tuple_by_mode); the third is a dict
     mode name -> (U, dU/dtheta, dU/dphi, d2U/dtheta2, d2U/dphi2, d2U/dtheta dphi); theta = colatitude, phi = longitude.
-    The non-modal variants return ONE key 'n' holding the sum over all their modes; the *_modes variants return 9
-    (no obliquity), 17 (medium obliquity), 27 (general obliquity) or 17 (low-e general obliquity) keys.
+    Today the non-modal variants return one key ('n') holding the sum over all their modes and the *_modes variants
+    9 / 17 / 27 / 17 keys; the check depends on neither: a variant's total is the sum over whatever keys it returns
+    and every returned mode is judged on its own (a future dedicated static/zero-frequency mode is acceptable).
     Arguments: (radius, longitude, colatitude, time, n, [spin,] e, [obliquity,] host_mass, a[, use_static]) with
     longitude/colatitude/time either python floats or equal-shape arrays (callers pass 3-D meshgrids), all the
     rest scalars.  `use_static=False` switches off every mode whose |frequency| < 1e-10 rad/s; `use_static=True`
@@ -20,8 +21,9 @@ callers `tides/modes/multilayer_modes.py`, `Tests/Test_Old/Test_SetX_Potential`)
     gen_modes tidal_potential_gen_obliquity_nsr_modes               gen_obl   27
     low_e_modes tidal_potential_gen_obliquity_low_e_nsr_modes       low_e     17
 
-Call paths: `py` = the un-jitted source (`.py_func`, with the module global `bool_` (a numba type the interpreter
-cannot use as a dtype) replaced by `numpy.bool_` from the harness; no repository change) with array arguments;
+Call paths: `py` = the un-jitted source (getattr(f, 'py_func', f) re-bound to a COPY of its globals in which the numba
+type alias `bool_`, which numpy cannot use as a dtype, is `numpy.bool_`; the repository module is never modified) with
+array arguments;
 `py_scalar` = the same with python floats, one call per point; `jit` = the numba dispatcher users call, with 3-D
 C-contiguous arrays as `multilayer_modes` passes.  Cold compilation of the eight dispatchers costs 7-22 s each
 (95 s together), therefore the quick tier runs the dispatcher in 8 fixed cases (one per implementation, spread
@@ -58,20 +60,21 @@ cancel it - the rounding error is that of the terms, not of the remainder)
   med_gen   medium-obliquity vs general-obliquity variants, per mode of the modal pair, the static parts, and the
             non-modal totals.  "to second order in obliquity" is decided as D = O(lambda^3): required
             D(lambda)/D(lambda/2) >= 2^2.5 = 5.66 (a surviving 2nd-order term gives 4, a 1st-order term 2, the
-            correct tables give 16..128) and D(lambda) <= 50 lambda^3 (measured <= 12).  The medium variants are the
+            correct tables give 16..128).  No bound on the size of D is imposed.  The medium variants are the
             general ones truncated at TOTAL degree 3 in (e, obliquity) - e.g. they keep e*obl^2 but drop e^3*obl and
             e^2*obl^2 - so at FIXED e > 0 the difference contains e^3*obl (ratio 2) by construction of the
             documented truncation; the scaling is therefore joint: (e, obl) = lambda*(kappa, 1), kappa = 0 (pure
             obliquity, exactly the stated clause) or kappa in [0.2, 2].
   sync      `simple` vs `nsr` at spin = n, use_static=False: D(e)/D(e/2) >= 2^1.5 = 2.83 (difference is O(e^2):
-            measured ratio 4.0-5.7) and D(e) <= 100 e^2 (measured 24 e^2).
+            measured ratio 4.0-5.7).
   low_e     `gen_modes` vs `low_e_modes` (the low-eccentricity member of the general-obliquity family; the limit
             e -> 0 of "the more general variants reduce to the simpler ones"), per mode and static part:
-            D(e)/D(e/2) >= 2.83 and D(e) <= 100 e^2 (measured <= 18 e^2).
+            D(e)/D(e/2) >= 2.83.
 
-Genuine defects of the pinned tree found by this check (all in .py files; NOT repaired here - proposed patches in
-/verif/out/proposed-fix-C14-{1..4}.diff - and listed in known_findings.json with signatures that name clause
-and mode, so that any other mode/clause still raises a VIOLATION; the search continues behind each):
+Genuine defects of the pinned tree found by this check (all in .py files; the last three are meanwhile repaired in /repo
+by `fix:` commits 09f77d1 / d1f956e / 88808dd - `tools/mut.py C14 --patch fixes/revert-<commit>.diff` must be CAUGHT -
+and are listed as `fixed` in known_findings.json; KF-C14-static-in-every-mode is still `known`; its signature names
+clause and kind, so that any other mismatch still raises a VIOLATION and the search continues behind it):
   KF-C14-static-in-every-mode  the four *_modes variants add the static P20 term to EVERY mode when use_static=True,
         so the modes sum to non-modal + (N-1)*static (the caller multilayer_modes sums the modes).  The check
         verifies that the residual is exactly (N-1) x the static term (estimated from the non-modal variant) and
@@ -120,7 +123,7 @@ LEVEL_TEXT = ('Generated-point exploration over colatitude, longitude, time, n, 
               'listed known finding applies; it does not say the potentials equal the physical tidal potential, nor anything '
               'about ungenerated points.')
 LEVEL_NOTE = ('Trusts numpy double arithmetic and the finite-difference error budget stated in the module docstring; generated '
-              'cases run the un-jitted source (.py_func with the numba type alias bool_ swapped for numpy.bool_); the compiled '
+              'cases run the un-jitted source (py_func re-bound to a copy of its globals with the numba alias bool_ replaced by numpy.bool_); the compiled '
               'dispatchers are exercised in 8 fixed cases (quick) / 10% of generated cases (thorough) and compared with the '
               'un-jitted result. "To second order in obliquity" is decided with e scaled jointly with the obliquity (the '
               'documented total-degree-3 truncation); at fixed e>0 the medium variants differ from the general ones by e^3*obl.')
@@ -138,8 +141,6 @@ TOL_JIT = 1e-13
 FLOOR = 1e-11
 RATIO_3RD = 2.0 ** 2.5
 RATIO_2ND = 2.0 ** 1.5
-C_MEDGEN = 50.0
-C_E2 = 100.0
 COLAT_MIN = 0.05
 ABS_FLOOR = 1e-300  # absolute slack (potential units; the scale G M R^2/a^3 is >= 6e-12): subnormal values carry no relative precision
 E_MIN = 1e-6     # e and obliquity are 0 or >= 1e-6: below that e^3 terms become subnormal doubles (rounding noise only)
@@ -153,7 +154,7 @@ RULE = ('Hypothesis draws kind (derivs 60% | zero_obl | med_gen | sync | low_e),
 ASSUMPTIONS = ['finite differences: 6th-order central, h=5e-3, truncation <= 1.4e-14*S, rounding <= 3e-11*S, tolerance 1e-9*S',
                'Laplace identity tolerance 2e-12 relative to the sum of the magnitudes of its four terms (measured 6.8e-14)',
                'modal sum 1e-12 relative (measured 6e-16); zero-obliquity equality 1e-14*scale (measured bit-identical)',
-               'two-scale ratio tests: D(l)/D(l/2) >= 2^2.5 for O(l^3), >= 2^1.5 for O(e^2); floor 1e-11; sanity bounds 50 l^3, 100 e^2',
+               'two-scale ratio tests: D(l)/D(l/2) >= 2^2.5 for O(l^3), >= 2^1.5 for O(e^2); floor 1e-11; no magnitude bound (orders of convergence only)',
                'medium-vs-general obliquity: e scaled jointly with obliquity (total-degree-3 truncation), plus pure-obliquity cases e=0']
 
 IMPL = {
@@ -168,7 +169,6 @@ IMPL = {
 }
 FAMILIES = {'simple': ['simple'], 'no_obl': ['nsr', 'nsr_modes'], 'med_obl': ['med', 'med_modes'],
             'gen_obl': ['gen', 'gen_modes'], 'low_e': ['low_e_modes']}
-NMODES = {'simple': 1, 'nsr': 1, 'nsr_modes': 9, 'med': 1, 'med_modes': 17, 'gen': 1, 'gen_modes': 27, 'low_e_modes': 17}
 KINDS = ['derivs', 'zero_obl', 'med_gen', 'sync', 'low_e']
 SPINS = ['ratio', 'sync', 'anti', 'zero', 'three_half', 'double']
 COMP = ['U', 'Ut', 'Up', 'Utt', 'Upp', 'Utp']
@@ -183,16 +183,32 @@ except Exception:  # pragma: no cover
 _funcs = {}
 
 
+def _interpreted(f):
+    """Un-jitted twin of `f` that the interpreter can run: getattr(f, 'py_func', f) re-bound to a COPY of its globals in
+    which a numba scalar type used as a numpy dtype (the alias `bool_`, which numpy cannot interpret) is replaced by
+    the numpy type of the same name.  The repository module itself is never modified."""
+    import types
+    pf = getattr(f, 'py_func', f)
+    if not isinstance(pf, types.FunctionType):
+        return pf
+    g = dict(pf.__globals__)
+    for name, val in list(g.items()):
+        if type(val).__module__.split('.')[0] == 'numba' and hasattr(np, name) and isinstance(getattr(np, name), type):
+            try:
+                np.dtype(val)
+            except TypeError:
+                g[name] = getattr(np, name)
+    twin = types.FunctionType(pf.__code__, g, pf.__name__, pf.__defaults__, pf.__closure__)
+    twin.__kwdefaults__ = pf.__kwdefaults__
+    return twin
+
+
 def _func(impl):
-    """(dispatcher, py_func) of an implementation; patches the numba alias `bool_` of its module for .py_func."""
+    """(dispatcher, interpreted twin) of an implementation."""
     if impl not in _funcs:
-        import importlib
         from TidalPy.tides import potential as P
         disp = getattr(P, IMPL[impl][0])
-        mod = importlib.import_module(disp.py_func.__module__)
-        if hasattr(mod, 'bool_'):
-            mod.bool_ = np.bool_
-        _funcs[impl] = (disp, disp.py_func)
+        _funcs[impl] = (disp, _interpreted(disp))
     return _funcs[impl]
 
 
@@ -247,8 +263,6 @@ def _call(impl, path, lon, col, tm, P, e=None, ob=None, static=None, o=None):
             for k in tup.keys():
                 v = tup[k]
                 res[str(k)] = np.array([np.broadcast_to(np.asarray(v[j], dtype=float), shp).reshape(npts) for j in range(6)])
-            if set(freqs.keys()) != set(res.keys()) or set(modes.keys()) != set(res.keys()):
-                raise AssertionError('mode name sets differ between the three returned dicts')
     return res
 
 
@@ -453,21 +467,41 @@ def _check_mode_derivs(c, impl, mode, T, pts, P):
                                                          num, abs(num - ret) / S if S else float('inf'), TOL_FD, S))
 
 
+def _total(res):
+    """sum over whatever keys an implementation returns (a non-modal variant returns one key today; nothing here
+    depends on its name or on the number of modes of the modal variants)"""
+    tot = 0.0
+    for T in res.values():
+        tot = tot + T
+    return tot
+
+
+def _modal_static(res_static, res_plain):
+    """Static (time-independent) term carried by a modal variant = the largest per-mode difference between
+    use_static=True and use_static=False (evaluated at a spin for which no mode has zero frequency).  Works whether
+    the term is replicated in every mode (known finding), carried by one mode, or by a dedicated extra mode."""
+    best, bn = 0.0, -1.0
+    for k, T in res_static.items():
+        d = T - res_plain[k] if k in res_plain else T
+        nn = float(np.max(np.abs(d)))
+        if nn > bn:
+            best, bn = d, nn
+    return best
+
+
 def _static_part(nonmodal_impl, path, lon, col, tm, P, e=None, ob=None):
     og = _generic_spin(P)
-    a = _call(nonmodal_impl, path, lon, col, tm, P, e=e, ob=ob, static=True, o=og)['n']
-    b = _call(nonmodal_impl, path, lon, col, tm, P, e=e, ob=ob, static=False, o=og)['n']
+    a = _total(_call(nonmodal_impl, path, lon, col, tm, P, e=e, ob=ob, static=True, o=og))
+    b = _total(_call(nonmodal_impl, path, lon, col, tm, P, e=e, ob=ob, static=False, o=og))
     return a - b
 
 
 def _check_modal_sum(c, modal, res_modal, res_nonmodal, path, lon, col, tm, P):
     nonmodal = IMPL[modal][2]
-    tot = sum(res_modal.values())
+    tot = _total(res_modal)
     ssum = sum(float(np.max(np.abs(T))) for T in res_modal.values())
-    ref = res_nonmodal['n']
+    ref = _total(res_nonmodal)
     n_modes = len(res_modal)
-    c.check(n_modes == NMODES[modal], {'clause': 'modal_sum', 'impl': modal, 'kind': 'mode_count'},
-            '%s returned %d modes, expected %d' % (modal, n_modes, NMODES[modal]))
     if ssum == 0.0 and not np.any(ref):
         return
     err = float(np.max(np.abs(tot - ref)))
@@ -507,8 +541,6 @@ def _eval_derivs(case, c, P, path):
                     d = float(np.max(np.abs(ref[k] - res[impl][k])))
                     c.check(d <= TOL_JIT * S, {'clause': 'jit_vs_py', 'impl': impl, 'mode': k},
                             '%s[%s]: compiled and un-jitted results differ by %.3e (S=%.3e)' % (impl, k, d, S))
-        c.check(len(res[impl]) == NMODES[impl], {'clause': 'mode_count', 'impl': impl},
-                '%s returned %d modes, expected %d' % (impl, len(res[impl]), NMODES[impl]))
         for mode, T in res[impl].items():
             _check_mode_derivs(c, impl, mode, T, pts, P)
     for impl in impls:
@@ -530,20 +562,25 @@ def _eval_zero_obl(case, c, P, path):
     col, lon = _points(case)
     tm = np.full(col.shape, P['t'])
     sc = P['sc']
-    base = _call('nsr', path, lon, col, tm, P)['n']
+    base = _total(_call('nsr', path, lon, col, tm, P))
     base_m = _call('nsr_modes', path, lon, col, tm, P)
     stat = None
     if P['static']:
-        stat = base_m['n'] - _call('nsr_modes', path, lon, col, tm, P, static=False)['n']
+        og = _generic_spin(P)
+        stat = _modal_static(_call('nsr_modes', path, lon, col, tm, P, static=True, o=og),
+                             _call('nsr_modes', path, lon, col, tm, P, static=False, o=og))
     for impl in ('med', 'gen'):
         c.label('impl:' + impl)
-        d = _norm(_call(impl, path, lon, col, tm, P, ob=0.0)['n'] - base, sc)
+        d = _norm(_total(_call(impl, path, lon, col, tm, P, ob=0.0)) - base, sc)
         c.check(d <= TOL_EXACT, {'clause': 'zero_obl', 'impl': impl}, '%s(obliquity=0) - nsr = %.3e scale' % (impl, d))
     for impl in ('med_modes', 'gen_modes'):
         c.label('impl:' + impl)
         r = _call(impl, path, lon, col, tm, P, ob=0.0)
-        c.check(set(base_m) <= set(r), {'clause': 'zero_obl', 'impl': impl, 'kind': 'keys'},
-                '%s lacks modes %s of nsr_modes' % (impl, sorted(set(base_m) - set(r))))
+        for k in base_m:
+            if k not in r:       # a mode the obliquity variant does not return counts as zero
+                d = _norm(base_m[k], sc) if stat is None else min(_norm(base_m[k], sc), _norm(base_m[k] - stat, sc))
+                c.check(d <= TOL_EXACT, {'clause': 'zero_obl', 'impl': impl, 'mode': k, 'kind': 'missing_mode_nonzero'},
+                        '%s has no mode %s but nsr_modes[%s] is non-zero (%.3e scale)' % (impl, k, k, d))
         for k, T in r.items():
             if k in base_m:
                 d = _norm(T - base_m[k], sc)
@@ -576,22 +613,18 @@ def _run_ok(ds, need):
     return ds[1] / ds[2] >= need
 
 
-def _order_test(c, name, sig, runs, need, bound, descs):
+def _order_test(c, name, sig, runs, need, descs):
     """runs: one [D(l), D(l/2), D(l/4)] per variant of the secondary parameter (kappa / obliquity).  A genuine term of too
     low an order shows for every variant; a ratio that is low only because the leading coefficient happens to (nearly)
     vanish at one value of the secondary parameter (e.g. mode '2o': obl^4 (kappa^2/8 - 1/36), zero at kappa = 0.4714) or
     because two consecutive orders cancel at one scale does not.  Violation <=> no variant and no scale pair reaches the
-    required ratio.  The sanity bound is applied to the first variant at the largest scale."""
+    required ratio.  Only the order of convergence is judged (the statement gives no constant)."""
     if not any(_run_ok(ds, need) for ds in runs):
         txt = '; '.join('%s: D = %s ratios %s' % (dsc, ', '.join('%.3e' % d for d in ds),
                                                   ', '.join('%.2f' % (ds[i] / ds[i + 1]) if ds[i + 1] > 0 else 'inf' for i in range(2)))
                         for dsc, ds in zip(descs, runs))
         c.fail(dict(sig, what='ratio'), '%s: difference (units of G M R^2/a^3) at lambda, lambda/2, lambda/4 never shrinks by the '
                'required factor %.2f per halving: %s' % (name, need, txt))
-    d1 = runs[0][0]
-    if d1 > FLOOR:
-        c.check(d1 <= bound, dict(sig, what='bound'),
-                '%s: D(lambda)=%.4e exceeds the sanity bound %.4e; %s' % (name, d1, bound, descs[0]))
 
 
 def _eval_med_gen(case, c, P, path):
@@ -611,25 +644,24 @@ def _eval_med_gen(case, c, P, path):
             D = {}
             for k in set(A) | set(B):
                 D[('mode', k)] = _norm(B.get(k, 0.0) - A.get(k, 0.0), sc)
-            At = _call('med', path, lon, col, tm, P, e=e, ob=ob, static=False, o=og)['n']
-            Bt = _call('gen', path, lon, col, tm, P, e=e, ob=ob, static=False, o=og)['n']
+            At = _total(_call('med', path, lon, col, tm, P, e=e, ob=ob, static=False, o=og))
+            Bt = _total(_call('gen', path, lon, col, tm, P, e=e, ob=ob, static=False, o=og))
             D[('total', 'periodic')] = _norm(Bt - At, sc)
             if P['static']:
-                As = _call('med', path, lon, col, tm, P, e=e, ob=ob, static=True, o=og)['n'] - At
-                Bs = _call('gen', path, lon, col, tm, P, e=e, ob=ob, static=True, o=og)['n'] - Bt
+                As = _total(_call('med', path, lon, col, tm, P, e=e, ob=ob, static=True, o=og)) - At
+                Bs = _total(_call('gen', path, lon, col, tm, P, e=e, ob=ob, static=True, o=og)) - Bt
                 D[('total', 'static')] = _norm(Bs - As, sc)
-                Ams = _call('med_modes', path, lon, col, tm, P, e=e, ob=ob, static=True, o=og)['n'] - A['n']
-                Bms = _call('gen_modes', path, lon, col, tm, P, e=e, ob=ob, static=True, o=og)['n'] - B['n']
+                Ams = _modal_static(_call('med_modes', path, lon, col, tm, P, e=e, ob=ob, static=True, o=og), A)
+                Bms = _modal_static(_call('gen_modes', path, lon, col, tm, P, e=e, ob=ob, static=True, o=og), B)
                 D[('modes', 'static')] = _norm(Bms - Ams, sc)
             for key, v in D.items():
                 runs.setdefault(key, [[] for _ in kappas])[iv].append(v)
     for impl in ('med', 'med_modes', 'gen', 'gen_modes'):
         c.label('impl:' + impl)
-    lam3 = max(ob0, kappa * ob0) ** 3
     descs = ['obliquity=%r, e=%r (kappa=%r), halved together' % (ob0, kap * ob0, kap) for kap in kappas]
     for (part, k), rr in sorted(runs.items()):
         _order_test(c, 'medium vs general obliquity, %s %s' % (part, k), {'clause': 'med_gen', 'part': part, 'mode': k},
-                    rr, RATIO_3RD, C_MEDGEN * lam3, descs)
+                    rr, RATIO_3RD, descs)
 
 
 def _eval_sync(case, c, P, path):
@@ -638,11 +670,11 @@ def _eval_sync(case, c, P, path):
     e0 = float(case['e2'])
     d = []
     for lam in SCALES:
-        a_ = _call('simple', path, lon, col, tm, P, e=e0 * lam)['n']
-        b_ = _call('nsr', path, lon, col, tm, P, e=e0 * lam, static=False, o=P['n'])['n']
+        a_ = _total(_call('simple', path, lon, col, tm, P, e=e0 * lam))
+        b_ = _total(_call('nsr', path, lon, col, tm, P, e=e0 * lam, static=False, o=P['n']))
         d.append(_norm(a_ - b_, P['sc']))
     c.label('impl:simple', 'impl:nsr')
-    _order_test(c, 'simple vs nsr at spin=n', {'clause': 'sync'}, [d], RATIO_2ND, C_E2 * e0 * e0, ['e=%r, e/2, e/4' % e0])
+    _order_test(c, 'simple vs nsr at spin=n', {'clause': 'sync'}, [d], RATIO_2ND, ['e=%r, e/2, e/4' % e0])
 
 
 def _eval_low_e(case, c, P, path):
@@ -662,8 +694,8 @@ def _eval_low_e(case, c, P, path):
             for k in set(A) | set(B):
                 D[('mode', k)] = _norm(B.get(k, 0.0) - A.get(k, 0.0), sc)
             if P['static']:
-                As = _call('low_e_modes', path, lon, col, tm, P, e=e, ob=ob, static=True, o=og)['n'] - A['n']
-                Bs = _call('gen_modes', path, lon, col, tm, P, e=e, ob=ob, static=True, o=og)['n'] - B['n']
+                As = _modal_static(_call('low_e_modes', path, lon, col, tm, P, e=e, ob=ob, static=True, o=og), A)
+                Bs = _modal_static(_call('gen_modes', path, lon, col, tm, P, e=e, ob=ob, static=True, o=og), B)
                 D[('modes', 'static')] = _norm(Bs - As, sc)
             for key, v in D.items():
                 runs.setdefault(key, [[] for _ in obls])[iv].append(v)
@@ -671,7 +703,7 @@ def _eval_low_e(case, c, P, path):
     descs = ['e=%r, e/2, e/4 at obliquity=%r' % (e0, ob) for ob in obls]
     for (part, k), rr in sorted(runs.items()):
         _order_test(c, 'general-obliquity medium-e vs low-e, %s %s' % (part, k), {'clause': 'low_e', 'part': part, 'mode': k},
-                    rr, RATIO_2ND, C_E2 * e0 * e0, descs)
+                    rr, RATIO_2ND, descs)
 
 
 def evaluate(case):
